@@ -133,10 +133,14 @@ def run_hypothesis_shard(mod, tier, seed, shard, nshards, examples, known_bucket
 
     while remaining > 0 and rnd < 12:
         state = {"calls": 0, "fail_calls": 0, "failing_keys": set(), "last_fail": None, "frozen": False,
-                 "target": None, "shrink_calls": 0, "last_size": 0}
+                 "target": None, "shrink_calls": 0, "last_size": 0, "history": [], "fail_history": None}
 
         def body(case):
             state["calls"] += 1
+            if state["target"] is None:
+                state["history"].append(case)
+                if len(state["history"]) > 300:
+                    del state["history"][:100]
             res["evaluations"] += 1
             if state["target"] is not None:
                 state["shrink_calls"] += 1
@@ -179,6 +183,7 @@ def run_hypothesis_shard(mod, tier, seed, shard, nshards, examples, known_bucket
                 return
             if state["target"] is None:
                 state["target"] = new[0].bucket
+                state["fail_history"] = list(state["history"][:-1])
             k = sha(out.key)
             if state["frozen"] and k not in state["failing_keys"]:
                 return          # shrink budget used up: stop exploring new shrinks
@@ -214,7 +219,23 @@ def run_hypothesis_shard(mod, tier, seed, shard, nshards, examples, known_bucket
                 excluded.add(v.bucket)
             remaining -= state["calls"]
         except hypothesis.errors.Flaky as e:
-            res["harness_errors"].append("flaky: %s" % (str(e)[:300],))
+            if state["last_fail"] is None:
+                res["harness_errors"].append("flaky: %s" % (str(e)[:300],))
+                break
+            # a violation was observed on a concrete case, but the same case behaves differently when Hypothesis runs it again:
+            # the outcome depends on what the process did before. The replay file carries the preceding cases of this process.
+            case, new, out = state["last_fail"]
+            v = new[0]
+            hist = []
+            for h in (state["fail_history"] or [])[-200:]:
+                try:
+                    hist.append(mod.dump_case(h))
+                except Exception:
+                    pass
+            b = v.bucket + "|only-after-earlier-cases-in-the-same-process"
+            found[b] = {"detail": v.detail + "\n(the same case gives another outcome when it is run again: the result depends on what "
+                        "was loaded earlier in the process; the replay file re-runs the %d preceding cases first)" % len(hist),
+                        "case": mod.dump_case(case), "history": hist, "size": len(json.dumps(mod.dump_case(case))), "seed": seed, "shard": shard}
             break
         except hypothesis.errors.Unsatisfiable as e:
             res["harness_errors"].append("unsatisfiable: %s" % (str(e)[:300],))
@@ -356,8 +377,10 @@ def run_property(pid, tier, seed):
         violations += 1
         path = os.path.join("replays", "%s-%s.json" % (pid, sha(b)))
         with open(os.path.join(OUT, path), "w", encoding="utf-8") as f:
-            json.dump({"property": pid, "bucket": b, "detail": info["detail"], "case": info["case"],
-                       "seed": info.get("seed"), "tier": tier}, f, indent=1, ensure_ascii=True)
+            doc = {"property": pid, "bucket": b, "detail": info["detail"], "case": info["case"], "seed": info.get("seed"), "tier": tier}
+            if info.get("history"):
+                doc["history"] = info["history"]
+            json.dump(doc, f, indent=1, ensure_ascii=True)
         lines.append("VIOLATION property=%s replay=%s" % (pid, os.path.join(OUT, path)))
         lines.append("  bucket: %s" % b)
         lines.append("  detail: %s" % info["detail"][:600].replace("\n", "\n          "))
@@ -406,6 +429,11 @@ def replay(path):
     data = json.load(open(path, encoding="utf-8"))
     pid = data["property"]
     mod = importlib.import_module("bbv.props.%s" % pid.lower())
+    for h in data.get("history") or []:
+        try:
+            mod.check(mod.load_case(h))
+        except BaseException:
+            pass
     if hasattr(mod, "replay"):
         out = mod.replay(data["case"])
     else:
